@@ -1,13 +1,13 @@
 typedef unsigned long u64;
-u64 ga = 935; u64 gb = 819; u64 gc_[4] = {1,2,3,19}; static u64 sa = 420; static u64 sb[3] = {617,5,6};
+u64 ga = 471; u64 gb = 86; u64 gc_[4] = {1,2,3,455}; static u64 sa = 168; static u64 sb[3] = {53,5,6};
 __thread u64 tva = 3; __thread u64 tvb = 4;
 extern u64 ext_a, ext_b; extern u64 ext_f(u64); extern u64 ext_g(u64);
-__attribute__((noinline)) u64 fn0(u64 x) { return x * 845 + ga + sb[0]; }
-__attribute__((noinline)) static u64 sf0(u64 x) { return (x ^ 935) + sa + gb; }
-__attribute__((noinline)) u64 fn1(u64 x) { return x * 921 + ga + sb[1]; }
-__attribute__((noinline)) static u64 sf1(u64 x) { return (x ^ 819) + sa + gb; }
-__attribute__((noinline)) u64 fn2(u64 x) { return x * 187 + ga + sb[2]; }
-__attribute__((noinline)) static u64 sf2(u64 x) { return (x ^ 19) + sa + gb; }
+__attribute__((noinline)) u64 fn0(u64 x) { return x * 95 + ga + sb[0]; }
+__attribute__((noinline)) static u64 sf0(u64 x) { return (x ^ 471) + sa + gb; }
+__attribute__((noinline)) u64 fn1(u64 x) { return x * 305 + ga + sb[1]; }
+__attribute__((noinline)) static u64 sf1(u64 x) { return (x ^ 86) + sa + gb; }
+__attribute__((noinline)) u64 fn2(u64 x) { return x * 793 + ga + sb[2]; }
+__attribute__((noinline)) static u64 sf2(u64 x) { return (x ^ 455) + sa + gb; }
 u64 (*const ftab[])(u64) = {fn0, fn1, fn2, sf0, sf1, sf2};
 u64 *ptab[] = { &ga, &gb, &gc_[2], &sa, &sb[1], &ext_a };
 __attribute__((constructor)) static void ctor_a(void) { ga += 1; }
